@@ -597,7 +597,12 @@ func (c *CEnv) binary(x *ast.BinaryExpr) CVal {
 	e := c.e
 	switch x.Op {
 	case token.LAND, token.LOR:
-		a, b := c.evalBool(x.X), c.evalBool(x.Y)
+		a := c.evalBool(x.X)
+		if x.Op == token.LAND && a == "false" {
+			// statically false (inscope(x) where x is not in scope): the right operand may name x, do not evaluate it
+			return CVal{S: "false", T: boolT}
+		}
+		b := c.evalBool(x.Y)
 		op := "and"
 		if x.Op == token.LOR {
 			op = "or"
@@ -762,7 +767,24 @@ func (c *CEnv) call(x *ast.CallExpr) CVal {
 		n.frame = nil
 		return n.ev(arg(0))
 	case "implies":
-		return CVal{S: fmt.Sprintf("(=> %s %s)", c.evalBool(arg(0)), c.evalBool(arg(1))), T: boolT}
+		ant := c.evalBool(arg(0))
+		if ant == "false" {
+			return CVal{S: "true", T: boolT}
+		}
+		return CVal{S: fmt.Sprintf("(=> %s %s)", ant, c.evalBool(arg(1))), T: boolT}
+	case "inscope":
+		// inscope(x): the Go local x has a value at this program point (caller-side rules are evaluated at every call
+		// of the callee; a rule about a loop-local applies only to the calls inside that loop)
+		id, ok := arg(0).(*ast.Ident)
+		if !ok {
+			return c.fail("inscope(<identifier>)")
+		}
+		if c.frame != nil {
+			if _, ok := c.frame.resolveLocal(id.Name, c.at, c.st); ok {
+				return CVal{S: "true", T: boolT}
+			}
+		}
+		return CVal{S: "false", T: boolT}
 	case "iff":
 		return CVal{S: fmt.Sprintf("(= %s %s)", c.evalBool(arg(0)), c.evalBool(arg(1))), T: boolT}
 	case "ite":
